@@ -64,6 +64,9 @@ def encode(payload, coding):
         return 'deflate', zlib.compress(payload, 9)
     if coding == 'zlib1':
         return 'deflate', zlib.compress(payload, 1)
+    if coding in ('zlib-w9', 'zlib-w12'):
+        c = zlib.compressobj(6, zlib.DEFLATED, int(coding.split('w')[1]))
+        return 'deflate', c.compress(payload) + c.flush()
     if coding == 'raw':
         return 'deflate', raw_deflate(payload)
     if coding == 'ident-gzip':
@@ -73,7 +76,7 @@ def encode(payload, coding):
     raise KeyError(coding)
 
 
-CODINGS = ['gzip1', 'gzip9', 'zlib', 'zlib1', 'raw', 'ident-gzip', 'ident']
+CODINGS = ['gzip1', 'gzip9', 'zlib', 'zlib1', 'zlib-w9', 'zlib-w12', 'raw', 'ident-gzip', 'ident']
 
 
 def reference(declared, wire):
